@@ -495,6 +495,12 @@ pub fn gen_script(r: &mut Rng, flavor: &str) -> String {
             });
         }
     }
+    if outgoing && (flavor == "C11" || flavor == "C01" || flavor == "C10") && r.chance(1, 2) {
+        // pieces completed on other connections after our handshake and bitfield went out, before the peer's arrive
+        for _ in 0..1 + r.below(3) {
+            evs.push(format!("h{}>Ig", r.below(np as u64)));
+        }
+    }
     // C20: a third of the connections stay silent from the start (no handshake ever arrives)
     let silent_start = flavor == "C20" && r.chance(1, 3);
     let hs_kind = if flavor == "C08" { r.below(6) } else if silent_start { 5 } else { 0 };
@@ -504,6 +510,10 @@ pub fn gen_script(r: &mut Rng, flavor: &str) -> String {
         3 => evs.push(format!("f:hs,{},{}>B{}", hex(&r.bytes(20)), peer_id, hex(&r.bytes(bf_bytes)))),
         4 => evs.push(format!("{}>B{}", hs_valid(&rand_id(r)), hex(&r.bytes(bf_bytes)))),
         _ => {} // no handshake at all
+    }
+    let mut last_served: Option<(usize, usize)> = None;
+    if flavor == "C09" && r.coin() {
+        evs.push("f:in".into());
     }
     let steps = 3 + r.below(25) as usize;
     for _ in 0..steps {
@@ -552,9 +562,19 @@ pub fn gen_script(r: &mut Rng, flavor: &str) -> String {
                 }
             }
             "C09" => {
-                if w(0, 60) {
+                if w(0, 12) && last_served.is_some() {
+                    // the piece that was loaded last is asked for again (whatever happened in between: choke, unchoke,
+                    // lost interest): a block inside it, the manager's answer either way
+                    let (idx, plen) = last_served.unwrap();
+                    let begin = *r.pick(&[0usize, 16, plen / 2]);
+                    let rep = if r.coin() { "Ig".to_string() } else { format!("L{},{},present", idx, plen) };
+                    format!("f:rq,{},{},{}>{}", idx, begin, 16.min(plen - begin), rep)
+                } else if w(0, 60) {
                     let idx = r.below(np as u64 + 1) as usize;
                     let plen = *r.pick(&[64usize, 100, 16384, 20000]);
+                    if idx < np {
+                        last_served = Some((idx, plen));
+                    }
                     let begin = *r.pick(&[0u64, 1, 16, plen as u64 - 1, plen as u64, plen as u64 + 1, 4294967290, 4294967295, 2147483648]);
                     let len = *r.pick(&[0u64, 1, 16, 64, 16384, 16385, 4294967295, 10, 6]);
                     let rep = match r.below(5) {
